@@ -22,7 +22,8 @@ Inductive vkind :=
 | VNoType        (* (7) aggregate type used before its definition *)
 | VCallSig       (* (8) call disagrees with the callee defined in the module *)
 | VRetClass      (* (8) ret value disagrees with the function's return type *)
-| VDomFuel.      (* internal: dominator iteration did not converge (never expected) *)
+| VDomFuel       (* internal: dominator iteration did not converge (never expected) *)
+| VEntryPhi.     (* (3)/(5) a phi in the first block of a function: control enters it without evaluating phis *)
 
 (* v_fn: global id of the function (0: module level); v_blk: label id (0: none); v_idx: instruction
    index in the block (-1: phi, length: the jump); v_aux: the offending temporary/label/type/global *)
@@ -297,6 +298,13 @@ Definition ssa_viol (f : func) (nbs : list nblock) (defs : PM.t site) : list vio
     ++ insts_use_viol defs fn nb reachable d (b_insts b) 0
     ++ flat_map (use_viol defs fn nb reachable d (Z.of_nat (length (b_insts b)))) (jump_uses (b_jump b))) nbs.
 
+(* the first block is entered from the caller: its phis would never be evaluated (QBE's IL reference forbids
+   jumps to the first block, so it has no use for phis either) *)
+Definition entry_phi_viol (f : func) : list violation :=
+  match f_blocks f with
+  | b :: _ => map (fun p => mkv 3 VEntryPhi (f_name f) (b_label b) (-1) (p_res p)) (b_phis b)
+  | [] => [] end.
+
 (* ------------------------------------------------------------------ per function *)
 Definition func_viol (f : func) : list violation :=
   let nbs := number (f_blocks f) 1%positive 1 in
@@ -304,7 +312,8 @@ Definition func_viol (f : func) : list violation :=
   labels_viol f ++ term_viol f ++ dup_labels (f_name f) (f_blocks f) (PM.empty unit)
   ++ rev (snd dv)
   ++ flat_map (block_class_viol (fst dv) f) (f_blocks f)
-  ++ ssa_viol f nbs (fst dv).
+  ++ ssa_viol f nbs (fst dv)
+  ++ entry_phi_viol f.
 
 (* ------------------------------------------------------------------ (7) types before use *)
 Definition rty_type_viol (seen : PM.t unit) (fn : ident) (t : rty) : list violation :=
